@@ -35,6 +35,9 @@ from cell_type_mapper.utils.csc_to_csr_parallel import (
     transpose_sparse_matrix_on_disk_v2)
 
 
+import cell_type_mapper.utils.verif_hooks as verif_hooks
+
+
 def find_markers_for_all_taxonomy_pairs(
         precomputed_stats_path,
         taxonomy_tree,
@@ -625,6 +628,7 @@ def _find_markers_worker(
 
     up_reg_lookup = dict()
     down_reg_lookup = dict()
+    verif_hooks.gate('refmarkers.before', col0=col0)
     for idx in idx_values:
         sibling_pair = idx_to_pair[idx]
         level = sibling_pair[0]
@@ -655,11 +659,15 @@ def _find_markers_worker(
             np.logical_and(validity_mask,
                            np.logical_not(up_mask)))[0].astype(idx_dtype)
 
+    verif_hooks.gate('refmarkers.mid', col0=col0)
+
     _write_to_tmp_file(
         up_reg_lookup=up_reg_lookup,
         down_reg_lookup=down_reg_lookup,
         output_path=tmp_path,
         idx_dtype=idx_dtype)
+
+    verif_hooks.gate('refmarkers.after', col0=col0)
 
 
 def _write_to_tmp_file(
